@@ -355,7 +355,8 @@ func runHistory(r *Run, in *epochInput, cf *CaseFile, caseID int) historyResult 
 			res.err = eerr
 			steps = append(steps, fmt.Sprintf("{| es_fitness := %s; es_go := None |}", FList(fits)))
 			key := "epoch-error"
-			if in.Random && unrelated && (strings.Contains(eerr.Error(), "genome has no genes") || strings.Contains(eerr.Error(), "genome has either no traits od genes")) {
+			if in.Random && unrelated && (strings.Contains(eerr.Error(), "genome has no genes") || strings.Contains(eerr.Error(), "no traits od genes") ||
+				strings.Contains(eerr.Error(), "without GENES") || strings.Contains(eerr.Error(), "no genes to")) {
 				key = "singlepoint-empty-child-unrelated-parents"
 			}
 			if in.Prop == "C02" || in.Prop == "C16" || in.Prop == "C01" {
@@ -411,6 +412,17 @@ func runHistory(r *Run, in *epochInput, cf *CaseFile, caseID int) historyResult 
 }
 
 func (po *popOracle) prevMaxInnov() int64 { return po.prevMax }
+
+// replayOpsOrEpoch dispatches a C01 replay (operator case or epoch history)
+func replayOpsOrEpoch(r *Run, input []byte) error {
+	var probe struct {
+		Op *opSpec `json:"op"`
+	}
+	if json.Unmarshal(input, &probe) == nil && probe.Op != nil {
+		return replayOps(r, input)
+	}
+	return replayEpoch(r, input)
+}
 
 func replayEpoch(r *Run, input []byte) error {
 	var in epochInput
